@@ -378,6 +378,7 @@ def seq_check(prop, tier, seed, cfg):
     cdir = os.path.join(ROOT, "corpus", prop)
     known_reproduced = {}
     if os.path.isdir(cdir):
+        todo = []
         for fn in sorted(os.listdir(cdir)):
             if not fn.endswith(".case"):
                 continue
@@ -388,11 +389,14 @@ def seq_check(prop, tier, seed, cfg):
             m = re.search(r"^# mode (\S+)", text, re.M)
             if m:
                 cmode = m.group(1)
-            r = run_replay(binp, prop, cmode, path, strict_f8=directed_known)
+            todo.append((fn, path, text, directed_known, cmode))
+        with cf.ThreadPoolExecutor(NCPU) as ex:
+            done = list(ex.map(lambda t: run_replay(binp, prop, t[4], t[1], strict_f8=t[3], timeout=600), todo))
+        for (fn, path, text, directed_known, cmode), r in zip(todo, done):
             corpus_runs += 1
             if r["crash"]:
-                if prop == "C08":
-                    violations.append((path, "corpus case crashes: " + crash_signature(r["err"])))
+                if prop == "C08" or cfg.get("engine_bin") == "sched":
+                    violations.append((path, "corpus case dies: " + crash_signature(r["err"])))
                 else:
                     notes.append("corpus case %s terminated abnormally (%s): a C08 matter" % (fn, crash_signature(r["err"])))
             elif r["verdict"] == 1:
